@@ -123,6 +123,7 @@ class Ctx:
         self.name = name
         self._get = table_getter
         self._table = None
+        self.txs: Dict[Any, Any] = {}
 
     @property
     def table(self):
@@ -270,9 +271,39 @@ def exec_op(ctx: Ctx, op: dict, rec: dict) -> Any:
         mm.commit(base, new)
         return True
     if kind == "gc":
-        r = t.garbage_collect(grace_period_ms=op.get("grace_ms", 3600000))
+        res["gc_now"] = sim.true_time()
+        res["gc_grace_ms"] = op.get("grace_ms", 3600000)
+        res["gc_start_step"] = sim.gstep
+        try:
+            r = t.garbage_collect(grace_period_ms=op.get("grace_ms", 3600000))
+        finally:
+            res["gc_end_step"] = sim.gstep
+            res["gc_end_now"] = sim.true_time()
         res["gc"] = r
         return r
+    if kind == "tx_open":
+        parts = [mkrows(op["tag"], op.get("n", 1))]
+        before = set(w.view().list(""))
+        tx = t.new_transaction().begin()
+        tx.append_data(parts[0])
+        if op.get("second"):
+            parts.append(mkrows(op["tag"] + "b", 1))
+            tx.append_data(parts[1])
+        files = set(w.view().list("")) - before
+        ctx.txs[op["id"]] = (tx, parts, files)
+        res["tx_files"] = sorted(files)
+        return True
+    if kind == "tx_close":
+        ent = ctx.txs.pop(op["id"], None)
+        if ent is None:
+            res["noop"] = True
+            return None
+        tx, parts, _files = ent
+        if op.get("how", "commit") == "commit":
+            res["appends"] = parts
+            return tx.commit()
+        res["rolled_back"] = True
+        return tx.rollback()
     if kind == "sleep":
         sim.sleep(op["dt"])
         return None
